@@ -15,6 +15,7 @@ import itertools
 import json
 import os
 import re
+import sys
 import time
 
 from .. import automata as au
@@ -82,6 +83,8 @@ def cases(tier, seed):
                     yield {"k": "fields", "cop": cop, "lic": lic, "hdr": hdr, "comment": comment}
     for f in ("write-fails", "toml-is-directory", "toml-is-dangling-symlink", "unlink-fails", "no-dep5", "toml-exists"):
         yield {"k": "fault", "fault": f}
+    for holder in ("ascii", "latin", "cjk"):
+        yield {"k": "locale", "holder": holder}
 
 
 def dep5_text(paragraphs, header=True):
@@ -326,7 +329,45 @@ def ev_fault(c) -> R:
     return r
 
 
-_EV = {"pat": ev_pat, "paras": ev_paras, "fields": ev_fields, "fault": ev_fault}
+def ev_locale(c) -> R:
+    """The environment's answer to 'which encoding do text files have' is ASCII (LC_ALL=C without UTF-8 mode): the real command in a
+    subprocess.  REUSE.toml is read as UTF-8 whatever the locale, so it has to be written as UTF-8 too - or not at all."""
+    import subprocess
+
+    from ..core import PY
+
+    r = R()
+    root = fresh_dir("c17")
+    holder = {"ascii": "2001 Jane Doe", "latin": "2001 J\u00fcrgen M\u00fcller", "cjk": "2001 \u5c71\u7530\u592a\u90ce"}[c["holder"]]
+    rec = dict(PATHS)
+    rec[".reuse/dep5"] = dep5_text([(["*"], [holder], "MIT", False)])
+    materialise(root, rec)
+    before = read_tree(root)
+    env = {k: v for k, v in os.environ.items() if not k.startswith(("LC_", "LANG", "PYTHONUTF8", "PYTHONCOERCECLOCALE", "PYTHONIOENCODING"))}
+    env.update({"LC_ALL": "C", "PYTHONUTF8": "0", "PYTHONCOERCECLOCALE": "0", "PYTHONPATH": os.pathsep.join(p for p in sys.path if p)})
+    p = subprocess.run([PY, "-m", "reuse", "--root", str(root), "convert-dep5"], capture_output=True, env=env, timeout=120)
+    after = read_tree(root)
+    label = f"convert-dep5 under LC_ALL=C without UTF-8 mode, holder {holder!r}"
+    toml = after.get("REUSE.toml")
+    if p.returncode == 0:
+        ok = toml is not None and ".reuse/dep5" not in after
+        try:
+            ok = ok and holder in toml.decode("utf-8")
+        except UnicodeDecodeError:
+            ok = False
+        if not ok:
+            r.violation(f"locale|success-but-wrong|{c['holder']}", f"{label}: exit 0, REUSE.toml {toml!r:.200}, dep5 present={'.reuse/dep5' in after}")
+    else:
+        if after != before:
+            changed = sorted(k for k in set(after) | set(before) if after.get(k) != before.get(k))
+            r.violation(f"locale|failed-but-changed|{c['holder']}", f"{label}: exit {p.returncode} ({p.stderr.decode('utf-8', 'replace')[-200:]!r}) and the tree changed: {changed} "
+                                                                   f"(REUSE.toml now {toml!r:.80})")
+    r.outcome = f"locale-exit{p.returncode}"
+    r.tags.append("locale")
+    return r
+
+
+_EV = {"locale": ev_locale, "pat": ev_pat, "paras": ev_paras, "fields": ev_fields, "fault": ev_fault}
 
 
 def evaluate(c) -> R:
@@ -335,7 +376,7 @@ def evaluate(c) -> R:
 
 def vacuity(st):
     for t in _EV:
-        if st.tags.get(t, 0) < 3:
+        if st.tags.get(t, 0) < (3 if t != "locale" else 1):
             return f"slice {t} did not run"
     return None
 
